@@ -31,6 +31,7 @@ RULE = (
     "feature accepting >= 5 targets; distinct = case parameters."
     " Half of the safety tables are written with all targets before all decoys or the reverse."
     " A quarter of the safety tables carry the informative feature as 10**12 + milli-units (int64)."
+    " A third of the safety tables carry a twin feature of the same quality and the opposite direction."
 )
 ASSUMPTIONS = [
     "genuine targets come from the generator's ground truth, never from the file's label column",
@@ -84,6 +85,15 @@ def run_safety(case):
             tab = psm.psm_table(rng, n_spectra=(int(rng.integers(2500, 4000)) if strict else int(rng.integers(120, 220)) * case["folds"] * big), mult_max=2,
                                 key_cols=("ExpMass",), file_index=fi, label_enc=case["enc"],
                                 best_feature_desc=case["best_desc"], sep_strength=3.0, n_info=1, n_noise=3)
+            # a third of the tables have a second feature of the same quality as the informative one, pointing the other
+            # way (lower is better): which of the two is best differs between training sets by chance
+            if rng.random() < 0.34:
+                corr = tab["truth"]["is_correct"].values.astype(float)
+                sign = -1.0 if case["best_desc"] else 1.0
+                twin = sign * (rng.normal(size=len(corr)) + 3.0 * corr)
+                tab["df"].insert(list(tab["df"].columns).index("info0") + 1, "twin0", twin)
+                tab["features"] = list(tab["features"]) + ["twin0"]
+                res.count("tables_with_twin_feature")
             # a quarter of the tables carry their informative feature as a large integer (fixed-point score with a constant
             # offset): exact in float64 and in int64, but neighbours coincide in float32
             if rng.random() < 0.25:
